@@ -12,6 +12,12 @@ Definition ho_serve_match_condition : bytes := hex "6f6b202626207265616465724368
 Definition ho_serve_awaits_close_after_handoff : bool := true.
 Definition ho_serve_yields : list bytes := [hex "73657276652e6c6f6f6b75702e6166746572"; hex "73657276652e6f666665722e6265666f7265"; hex "73657276652e6177616974636c6f73652e6265666f7265"; hex "73657276652e6177616974636c6f73652e6166746572"; hex "73657276652e6f666665722e637478646f6e65"; hex "73657276652e68616e646c65722e6265666f7265"]. (* serve.lookup.after serve.offer.before serve.awaitclose.before serve.awaitclose.after serve.offer.ctxdone serve.handler.before *)
 Definition ho_responder_close_closes_chan : bool := true.
+Definition ho_errcloser_token_closes : nat := 1. (* 0 nothing, 1 the guarded Close, 2 the embedded reader *)
+Definition ho_errcloser_close_once : bool := true.
+Definition ho_iter_wraps_response : bool := true.
+Definition ho_iter_closes_on_error_return : bool := true.
+Definition ho_unmarshal_closes_on_return : bool := true.
+Definition ho_responder_close_tolerates_second_call : bool := false.
 Definition ho_receipts_chan_capacity : nat := 1.
 Definition ho_receipts_sender_close_calls : nat := 0.
 Definition ho_receipts_sender_delete_calls : nat := 2.
@@ -34,3 +40,7 @@ Definition ho_ibb_close_unregisters : bool := true.
 Definition ho_ibb_close_under_read_lock : bool := true.
 Definition ho_ibb_both_closes_use_closeread : bool := true.
 Definition ho_ibb_yields : list bytes := [hex "6962622e726561642e636865636b6564"; hex "6962622e726561642e776f6b656e"; hex "6962622e7061796c6f61642e6c6f636b6564"]. (* ibb.read.checked ibb.read.woken ibb.payload.locked *)
+Definition ho_ibb_serve_close_blocking_write_locks : nat := 0.
+Definition ho_ibb_serve_close_try_write_locks : nat := 1.
+Definition ho_ibb_serve_close_sets_abort : bool := true.
+Definition ho_ibb_writer_tests_abort_first : bool := true.
